@@ -205,7 +205,15 @@ def check_c03(tier, seed):
     rep.exhaustive = True
     rng = random.Random(seed)
     cases = []
-    for c in g.cases:
+    gcases = list(g.cases)
+    if quick:
+        # two token classes over tiny stores: tokens held by different UTxOs of one address
+        g2 = core.tlc_mc("MC_Selector", CFG.format(maxu=2, maxl=1, maxt1=1, maxt2=1, nblocks=1, wmax=50, explore="FALSE",
+                                                   fallback="FALSE", overlap="FALSE", emit="EmitCase"),
+                         "c03_gen2", workers=6, timeout=1500, heap="8g")
+        rep.add_tlc(g2)
+        gcases += g2.cases
+    for c in gcases:
         store, qs = realise(c, ["q1"])
         cases.append((store, qs))
     if not quick and len(cases) > 400000:
